@@ -28,8 +28,8 @@ from . import rcdata
 
 PROP = "C13"
 TIERS = {
-    "quick": {"runs": 9000, "wall": 75, "chunk": 50},
-    "thorough": {"runs": 280000, "wall": 840, "chunk": 200},
+    "quick": {"runs": 30000, "wall": 75, "chunk": 100},
+    "thorough": {"runs": 800000, "wall": 840, "chunk": 300},
 }
 STEP_CAP = 500000
 SHRINK_BUDGET = 250
